@@ -116,6 +116,28 @@ def dag_cases(ctx, graphs, disk_every=0, gc_every=0, names=None, tagname=""):
     return out
 
 
+def amp_cases(ctx, graphs, count, ks, tagname="amp"):
+    """amplified binding (DESIGN 3.1) for a sample of the DAGs: every model edge becomes a chain of K filler commits, so real heights
+    reach the hundreds/thousands (closure keys cross byte boundaries, closures become multi-level trees). Two kinds of DAGs are
+    taken, spread over the enumeration by a seed-dependent stride: (i) a merge whose FIRST parent is a root and whose second parent
+    is at least two levels up (small closure merged with a big one), (ii) any DAG with a merge of distinct parents and height >= 4."""
+    def kind1(g):
+        return any(len(ps) >= 2 and g["ht"][ps[0] - 1] == 1 and max(g["ht"][p - 1] for p in ps[1:]) >= 3 for ps in g["par"])
+
+    def kind2(g):
+        return max(g["ht"]) >= 4 and any(len(set(ps)) >= 2 for ps in g["par"])
+    out = []
+    for kind, share in ((kind1, count // 2), (kind2, count - count // 2)):
+        pool = [g for g in graphs if kind(g)]
+        if not pool:
+            continue
+        stride = max(1, len(pool) // max(1, share))
+        for j, g in enumerate(pool[(ctx.seed * 13) % stride::stride][:share]):
+            k = ks[(j + ctx.seed) % len(ks)]
+            out.append({"graph": g, "binding": {"seed": ctx.seed * 104729 + j, "store": "mem", "amp": k}, "key": "%s%d%s" % (tagname, k, json.dumps(g["par"]))})
+    return out
+
+
 def replay_one(ctx, engines):
     """--replay: re-drive exactly the saved case through the engine/mode recorded with it."""
     rp = json.load(open(ctx.replay))
